@@ -24,6 +24,10 @@ if args.props:
     want = set(args.props.split(','))
     items = [it for it in items if it[2].get('property') in want]
 claimed = {c['property_id'] for c in json.load(open(os.path.join(V, 'MANIFEST.json')))['checks']}
+# scratch copies live at ever new paths: give the whole run its own Go build cache and drop it at the end,
+# otherwise the shared cache grows by gigabytes per run
+GOCACHE = tempfile.mkdtemp(prefix='govc-selftest-gocache-')
+ENV = dict(os.environ, GOCACHE=GOCACHE)
 def run(it):
     name, patch, meta = it
     prop = meta['property']
@@ -41,7 +45,7 @@ def run(it):
             if pr not in claimed:
                 continue
             t0 = time.time()
-            r = subprocess.run([os.path.join(V, 'check'), pr, '--tier', args.tier, '--repo', repo, '--evidence', os.path.join(tmp, 'ev'), '--replays', os.path.join(tmp, 'replays')], capture_output=True, text=True, cwd=V)
+            r = subprocess.run([os.path.join(V, 'check'), pr, '--tier', args.tier, '--repo', repo, '--evidence', os.path.join(tmp, 'ev'), '--replays', os.path.join(tmp, 'replays')], capture_output=True, text=True, cwd=V, env=ENV)
             out_all += r.stdout[-3000:] + r.stderr[-2000:]
             viol = [l for l in r.stdout.splitlines() if l.startswith('VIOLATION')]
             if r.returncode == 1 and viol:
@@ -59,4 +63,5 @@ with concurrent.futures.ThreadPoolExecutor(max_workers=args.jobs) as ex:
             bad += 1
             print('    ', str(info).replace('\n', '\n     ')[:1500])
 print(f'{len(items)} mutants, {bad} not caught')
+shutil.rmtree(GOCACHE, ignore_errors=True)
 sys.exit(1 if bad else 0)
